@@ -400,4 +400,83 @@ theorem loop_spec (cfg : List (RunC κ)) (H : Harness) (stop : Option Nat) (sche
         obtain ⟨r1, r2, r3⟩ := ih _ _ s1 hinv s' res hl
         exact ⟨r1, fun j cj hcj => ⟨(r2 j cj hcj).1, Nat.le_trans (hR1 j cj hcj).2 (r2 j cj hcj).2⟩, r3⟩
 
+/-- `loop_spec` carrying an additional invariant `F` that every `execute_run` of a task preserves -/
+theorem loop_spec_with (cfg : List (RunC κ)) (H : Harness) (stop : Option Nat) (sched : Sched)
+    (F : St κ β → Prop)
+    (hF : ∀ (tasks : List Nat) (s : St κ β) (i : Nat) (c : RunC κ) (s' : St κ β) (res : StepRes),
+      LInv cfg H tasks s → i ∈ tasks → cfg[i]? = some c → F s →
+      step benchOf cfg H stop s i = (s', res) → F s') (fuel : Nat) :
+    ∀ (choices tasks : List Nat) (s : St κ β), LInv cfg H tasks s → F s →
+    ∀ s' res, loop benchOf cfg H stop sched fuel choices tasks s = (s', res) →
+      F s' ∧ s'.runs.length = cfg.length ∧
+      (∀ i c, cfg[i]? = some c → RInv H c i (s'.runs.getD i dfltRun) ∧
+        (s.runs.getD i dfltRun).m ≤ (s'.runs.getD i dfltRun).m) ∧
+      (res = some false → ∀ i c, cfg[i]? = some c → terminated c (s'.runs.getD i dfltRun) = true) := by
+  induction fuel with
+  | zero =>
+    intro choices tasks s h hFs s' res hl
+    simp only [loop, Prod.mk.injEq] at hl
+    obtain ⟨rfl, rfl⟩ := hl
+    exact ⟨hFs, h.len, fun i c hc => ⟨h.r i c hc, Nat.le_refl _⟩, by simp⟩
+  | succ fuel ih =>
+    intro choices tasks s h hFs s' res hl
+    cases tasks with
+    | nil =>
+      simp only [loop, Prod.mk.injEq] at hl
+      obtain ⟨rfl, rfl⟩ := hl
+      exact ⟨hFs, h.len, fun i c hc => ⟨h.r i c hc, Nat.le_refl _⟩, fun _ i c hc => h.t i c hc (by simp)⟩
+    | cons t ts =>
+      simp only [loop] at hl
+      generalize hidx : sched.pickIdx (t :: ts) (choices.headD 0) = idx at hl
+      generalize hi : (t :: ts).getD idx t = i at hl
+      have himem : i ∈ t :: ts := by rw [← hi]; exact getD_mem_cons t ts idx
+      have hirange := h.inRange i himem
+      obtain ⟨c, hc⟩ : ∃ c, cfg[i]? = some c := ⟨cfg[i], by simp [hirange]⟩
+      have hilen : i < s.runs.length := by rw [h.len]; exact hirange
+      generalize hst : step benchOf cfg H stop s i = st at hl
+      obtain ⟨s1, r1⟩ := st
+      obtain ⟨q1, q2, q3, q4, q5, q6⟩ := step_spec benchOf cfg H stop s i c hc hilen h.b (h.r i c hc) s1 r1 hst
+      have hFs1 : F s1 := hF (t :: ts) s i c s1 r1 h himem hc hFs hst
+      have hR1 : ∀ j cj, cfg[j]? = some cj → RInv H cj j (s1.runs.getD j dfltRun) ∧
+          (s.runs.getD j dfltRun).m ≤ (s1.runs.getD j dfltRun).m := by
+        intro j cj hcj
+        by_cases hji : j = i
+        · subst hji; rw [hc] at hcj; cases hcj; exact ⟨q4, q6⟩
+        · rw [q3 j hji]; exact ⟨h.r j cj hcj, Nat.le_refl _⟩
+      cases r1 with
+      | interrupted =>
+        simp only [Prod.mk.injEq] at hl
+        obtain ⟨rfl, rfl⟩ := hl
+        exact ⟨hFs1, by rw [q2, h.len], hR1, by simp⟩
+      | done =>
+        simp only at hl
+        have hinv : LInv cfg H ((t :: ts).eraseIdx idx) s1 := by
+          refine ⟨by rw [q2, h.len], q1, fun j cj hcj => (hR1 j cj hcj).1, ?_, ?_⟩
+          · intro j cj hcj hj
+            by_cases hji : j = i
+            · subst hji; rw [hc] at hcj; cases hcj; exact q5 rfl
+            · rw [q3 j hji]
+              apply h.t j cj hcj
+              intro hmem
+              have := erased_is_picked _ _ _ hmem hj
+              have hij : i = j := by
+                rw [← hi]; simp [List.getD_eq_getElem?_getD, this]
+              exact hji hij.symm
+          · intro j hj; exact h.inRange j (mem_of_mem_eraseIdx' _ _ _ hj)
+        obtain ⟨r0, r1, r2, r3⟩ := ih _ _ s1 hinv hFs1 s' res hl
+        exact ⟨r0, r1, fun j cj hcj => ⟨(r2 j cj hcj).1, Nat.le_trans (hR1 j cj hcj).2 (r2 j cj hcj).2⟩, r3⟩
+      | again =>
+        simp only at hl
+        have hinv : LInv cfg H (sched.requeue idx (t :: ts)) s1 := by
+          refine ⟨by rw [q2, h.len], q1, fun j cj hcj => (hR1 j cj hcj).1, ?_, ?_⟩
+          · intro j cj hcj hj
+            have hj' : j ∉ t :: ts := fun hm => hj ((requeue_mem sched idx _ j).mpr hm)
+            have hji : j ≠ i := fun e => hj' (e ▸ himem)
+            rw [q3 j hji]
+            exact h.t j cj hcj hj'
+          · intro j hj; exact h.inRange j ((requeue_mem sched idx _ j).mp hj)
+        obtain ⟨r0, r1, r2, r3⟩ := ih _ _ s1 hinv hFs1 s' res hl
+        exact ⟨r0, r1, fun j cj hcj => ⟨(r2 j cj hcj).1, Nat.le_trans (hR1 j cj hcj).2 (r2 j cj hcj).2⟩, r3⟩
+
+
 end RB.Session
